@@ -54,6 +54,9 @@ def choice(seq):
     ctx = Ctx.current
     if ctx is None:
         return _orig["choice"](seq)
+    hook = getattr(ctx, "draw_hook", None)
+    if hook is not None:
+        hook("choice", seq)  # may end the path (PathAbort) when the caller's state provably repeats
     k, stem = _call(ctx, "choice")
     n = len(seq)
     if n == 0:
